@@ -27,7 +27,7 @@ def main():
     out.append('### 12.3 Systematic mutation sweep (`selftest/mutsweep.py`)\n')
     out.append('Every single-token mutant of the eleven library modules under a fixed operator set (comparison and arithmetic\n'
                'operators, `and`/`or`, `not` dropped, `True`/`False`, `min`/`max`, MINIMISE/MAXIMISE, `break`/`continue`, integer\n'
-               'literals +-1) was generated: %d mutants, of which %d compile and pass the unchanged 35 tests.  A seeded sample\n'
+               'literals +-1) was generated: %d mutants, of which %d compile and pass the unchanged 35 tests.  Two seeded samples (seeds 1 and 2)\n'
                'stratified by file was run through the quick tier of the checks that look at that file (first detection stops).\n'
                % (ntot, ncand))
     out.append('Sampled %d: **%d detected**, %d not reported.  Every survivor was read by hand:\n' % (len(res), len(det), len(sur)))
